@@ -9,6 +9,7 @@ pub fn dispatch(mode: &str, engine: &str, rest: &[String]) -> anyhow::Result<()>
         ("replay", "sem") => sem::replay(rest),
         ("runsrc", "sem") => sem::runsrc(rest),
         ("replay", "sess") => sem::replay_sessions(rest),
+        ("replay", "lim") => sem::replay_limits(rest),
         _ => anyhow::bail!("unknown mode/engine {} {}", mode, engine),
     }
 }
